@@ -421,19 +421,28 @@ example : (chainOf (prebuildFlat { ees := [], classes := ["DOG"] }
     (.cons (.create "d" "DOG") (.cons (.assign (.var "n") (.int "1")) (.cons (.delete "d") .nil)))
     (by decide) (by decide)).2.1
 
-/-- every statement of the body (every member of the outer block's R661 chain) has EXACTLY ONE R603 subtype row, as a
-    count over the whole population: `(rows.filter (·.smtOf == some i)).length = 1`.
-    `_partial`: `coreB` bodies (statements of nested blocks are outside the subset). -/
+/-- EVERY statement of the population — of the outer block and of every nested block (while / for each / if bodies) — has
+    EXACTLY ONE R603 subtype row, as a count over the whole population: `(rows.filter (·.smtOf == some i)).length = 1`
+    (first conjunct; the second restates it for the members of the outer block's R661 chain).
+    `_partial`: `coreB` bodies (elif / else clauses and `self` are outside the subset). -/
 theorem statement_subtype_unique_partial (fc : FCtx) (a : Block) (hc : coreB a = true) (hok : flatOk fc a = true) :
-    ∀ i ∈ chainOf (prebuildFlat fc a) 0, subCount (prebuildFlat fc a) i = 1 := by
+    (∀ (i b' : Nat) (p : Option Nat), (prebuildFlat fc a)[i]? = some (.smt b' p) → subCount (prebuildFlat fc a) i = 1) ∧
+    (∀ i ∈ chainOf (prebuildFlat fc a) 0, subCount (prebuildFlat fc a) i = 1) := by
+  refine ⟨fun i b' p hi => prebuildFlat_subCount_all fc a hc (okAll_of_flatOk fc a hc hok) i b' p hi, ?_⟩
   rw [(chainOf_prebuildFlat fc a hc (okAll_of_flatOk fc a hc hok)).1]
   exact prebuildFlat_subCount fc a hc (okAll_of_flatOk fc a hc hok)
 
 example : subCount (prebuildFlat { ees := [], classes := ["DOG"] }
       (.cons (.create "d" "DOG") (.cons (.assign (.var "n") (.int "1")) (.cons (.delete "d") .nil)))) 5 = 1 :=
-  statement_subtype_unique_partial { ees := [], classes := ["DOG"] }
+  (statement_subtype_unique_partial { ees := [], classes := ["DOG"] }
     (.cons (.create "d" "DOG") (.cons (.assign (.var "n") (.int "1")) (.cons (.delete "d") .nil)))
-    (by decide) (by decide) 5 (by decide)
+    (by decide) (by decide)).2 5 (by decide)
+
+/-- a statement of a NESTED block: `while (true) break; end while;` — the `break` is row 5, in the block at row 4 -/
+example : subCount (prebuildFlat { ees := [], classes := [] }
+      (.cons (.while_ (.bool "true") (.cons .brk .nil)) .nil)) 5 = 1 :=
+  (statement_subtype_unique_partial { ees := [], classes := [] }
+    (.cons (.while_ (.bool "true") (.cons .brk .nil)) .nil) (by decide) (by decide)).1 5 4 none (by decide)
 
 end Flat
 
@@ -578,9 +587,100 @@ theorem binary_as_in_source_partial (fc : FCtx) (nd : Node) (g g1 g2 : G) (n l r
     callFn (mkEnv fc nd) (n + 40) accept_BinaryOperationNode [.node] [] g = binRes g2 op t l r :=
   binary_eq fc nd g g1 g2 n l r bl br op t accL accR hop hkl hkr hal har hb hl hr ht h2
 
--- NOT yet proved (left for the next round): `typeOf c env sel (.un op e) = some (unTy op t)` and
--- `typeOf c env sel (.bin e op e') = some (binTy op t)` when `typeOf c env sel e = some t`; `unTy` / `binTy`
--- (Proofs/PbShape.lean) are written clause by clause like `typeOf` in Typing.lean.
+/-- `unTy` IS the `.un` clause of the specification `typeOf` (Typing.lean) -/
+theorem unary_type_is_model_type (c : Pyx.Prebuild.TCtx) (env : Pyx.Prebuild.Env) (sel : Option String) (e : Pyx.Prebuild.Expr) (op t : String)
+    (h : Pyx.Prebuild.typeOf c env sel e = some t) :
+    Pyx.Prebuild.typeOf c env sel (.un op e) = some (Pyx.PbShape.unTy op t) := by
+  have hb : Pyx.Prebuild.boolUnOps = Pyx.Prebuild.Flat.boolUnOps := rfl
+  simp only [Pyx.Prebuild.typeOf, h, hb, Pyx.PbShape.unTy]
+  by_cases h1 : Pyx.Prebuild.Flat.boolUnOps.contains op = true
+  · rw [if_pos h1, if_pos h1]
+  · by_cases h2 : (op == "cardinality") = true
+    · rw [if_neg h1, if_pos h2, if_neg h1, if_pos h2]
+    · rw [if_neg h1, if_neg h2, if_neg h1, if_neg h2]
+
+/-- `binTy` IS the `.bin` clause of the specification `typeOf` (Typing.lean) -/
+theorem binary_type_is_model_type (c : Pyx.Prebuild.TCtx) (env : Pyx.Prebuild.Env) (sel : Option String) (e e' : Pyx.Prebuild.Expr) (op t : String)
+    (h : Pyx.Prebuild.typeOf c env sel e = some t) :
+    Pyx.Prebuild.typeOf c env sel (.bin e op e') = some (Pyx.PbShape.binTy op t) := by
+  have hc : Pyx.Prebuild.compareOps = Pyx.Prebuild.Flat.compareOps := rfl
+  have hs : Pyx.Prebuild.setOps = ["|", "+", "&", "^", "-"] := rfl
+  have hg : (Pyx.Prebuild.genericRefs.contains (some t)) = (["inst_ref<Object>", "inst_ref_set<Object>"].contains t) := by
+    simp [Pyx.Prebuild.genericRefs]
+  simp only [Pyx.Prebuild.typeOf, h, hc, hs, hg, Pyx.PbShape.binTy]
+  by_cases h1 : Pyx.Prebuild.Flat.compareOps.contains op = true
+  · rw [if_pos h1, if_pos h1]
+  · by_cases h2 : (["|", "+", "&", "^", "-"].contains op && ["inst_ref<Object>", "inst_ref_set<Object>"].contains t) = true
+    · rw [if_neg h1, if_pos h2, if_neg h1, if_pos h2]
+    · rw [if_neg h1, if_neg h2, if_neg h1, if_neg h2]
+
+/-- the R820 type the SOURCE selects for a unary operation (interpreted IR) is the type the SPECIFICATION `typeOf` gives the
+    expression, whenever the operand's recorded type is the specification's type of the operand -/
+theorem unary_type_as_in_source (fc : FCtx) (nd : Node) (g g1 : G) (n o b : Nat) (op t : String) (acc : Acc)
+    (hop : nd.strs.lookup "operator" = some op) (hk : nd.kids.lookup "operand" = some acc)
+    (ha : acc [] g = (.inst o, g1)) (hb : BlkOK g1.st) (ho : g1.st.pop[o]? = some (.val b))
+    (ht : g1.tys.lookup o = some t)
+    (c : Pyx.Prebuild.TCtx) (env : _root_.Pyx.Prebuild.Env) (sel : Option String) (e : Pyx.Prebuild.Expr)
+    (hty : Pyx.Prebuild.typeOf c env sel e = some t) :
+    ∃ t', Pyx.Prebuild.typeOf c env sel (.un (lowerStr op) e) = some t' ∧
+      callFn (mkEnv fc nd) (n + 30) accept_UnaryOperationNode [.node] [] g
+        = some (.inst (newVal g1.st).1,
+                { g1 with st := ((newVal g1.st).2.new (.uny (newVal g1.st).1 (lowerStr op) o)).2,
+                          tys := ((newVal g1.st).1, t') :: g1.tys }) :=
+  ⟨unTy (lowerStr op) t, unary_type_is_model_type c env sel e (lowerStr op) t hty,
+    unary_as_in_source fc nd g g1 n o b op t acc hop hk ha hb ho ht⟩
+
+/-- the same for a binary operation (the proved operators: comparison / logical, `*`, `/`, `%`): the recorded R820 type is
+    `typeOf` of the expression when the LEFT operand's recorded type is `typeOf` of the left operand.  An integer / real
+    promotion in prebuild.py (seed C06-c) changes the interpreted type and breaks this theorem. -/
+theorem binary_type_as_in_source_partial (fc : FCtx) (nd : Node) (g g1 g2 : G) (n l r bl br : Nat) (op t : String)
+    (accL accR : Acc) (hop : nd.strs.lookup "operator" = some op)
+    (hkl : nd.kids.lookup "left" = some accL) (hkr : nd.kids.lookup "right" = some accR)
+    (hal : accL [] g = (.inst l, g1)) (har : accR [] g1 = (.inst r, g2)) (hb : BlkOK g2.st)
+    (hl : g2.st.pop[l]? = some (.val bl)) (hr : g2.st.pop[r]? = some (.val br))
+    (ht : g2.tys.lookup l = some t)
+    (h2 : ¬ (lowerStr op = "|" ∨ lowerStr op = "+" ∨ lowerStr op = "&" ∨ lowerStr op = "^" ∨ lowerStr op = "-"))
+    (c : Pyx.Prebuild.TCtx) (env : _root_.Pyx.Prebuild.Env) (sel : Option String) (e e' : Pyx.Prebuild.Expr)
+    (hty : Pyx.Prebuild.typeOf c env sel e = some t) :
+    ∃ t', Pyx.Prebuild.typeOf c env sel (.bin e (lowerStr op) e') = some t' ∧
+      callFn (mkEnv fc nd) (n + 40) accept_BinaryOperationNode [.node] [] g
+        = some (.inst (newVal g2.st).1,
+                { g2 with st := ((newVal g2.st).2.new (.bin (newVal g2.st).1 (lowerStr op) l r)).2,
+                          tys := ((newVal g2.st).1, t') :: g2.tys }) :=
+  ⟨binTy (lowerStr op) t, binary_type_is_model_type c env sel e e' (lowerStr op) t hty,
+    binary_as_in_source_partial fc nd g g1 g2 n l r bl br op t accL accR hop hkl hkr hal har hb hl hr ht h2⟩
+
+/-- `accept_BinaryOperationNode`, EVERY operator (the `| + & ^ -` branch included: left type tested against the generic
+    reference types, `.S_IRDT[17].O_OBJ[123].S_IRDT[123]` reaching nothing for them, `or self.s_dt('inst_ref_set<Object>')`) -/
+theorem binary_as_in_source (fc : FCtx) (nd : Node) (g g1 g2 : G) (n l r bl br : Nat) (op t : String) (accL accR : Acc)
+    (hop : nd.strs.lookup "operator" = some op)
+    (hkl : nd.kids.lookup "left" = some accL) (hkr : nd.kids.lookup "right" = some accR)
+    (hal : accL [] g = (.inst l, g1)) (har : accR [] g1 = (.inst r, g2)) (hb : BlkOK g2.st)
+    (hl : g2.st.pop[l]? = some (.val bl)) (hr : g2.st.pop[r]? = some (.val br))
+    (ht : g2.tys.lookup l = some t) :
+    callFn (mkEnv fc nd) (n + 40) accept_BinaryOperationNode [.node] [] g = binRes g2 op t l r :=
+  binary_all fc nd g g1 g2 n l r bl br op t accL accR hop hkl hkr hal har hb hl hr ht
+
+/-- … and its R820 type is the specification's `typeOf` of the expression, for every operator -/
+theorem binary_type_as_in_source (fc : FCtx) (nd : Node) (g g1 g2 : G) (n l r bl br : Nat) (op t : String)
+    (accL accR : Acc) (hop : nd.strs.lookup "operator" = some op)
+    (hkl : nd.kids.lookup "left" = some accL) (hkr : nd.kids.lookup "right" = some accR)
+    (hal : accL [] g = (.inst l, g1)) (har : accR [] g1 = (.inst r, g2)) (hb : BlkOK g2.st)
+    (hl : g2.st.pop[l]? = some (.val bl)) (hr : g2.st.pop[r]? = some (.val br))
+    (ht : g2.tys.lookup l = some t)
+    (c : Pyx.Prebuild.TCtx) (env : _root_.Pyx.Prebuild.Env) (sel : Option String) (e e' : Pyx.Prebuild.Expr)
+    (hty : Pyx.Prebuild.typeOf c env sel e = some t) :
+    ∃ t', Pyx.Prebuild.typeOf c env sel (.bin e (lowerStr op) e') = some t' ∧
+      callFn (mkEnv fc nd) (n + 40) accept_BinaryOperationNode [.node] [] g
+        = some (.inst (newVal g2.st).1,
+                { g2 with st := ((newVal g2.st).2.new (.bin (newVal g2.st).1 (lowerStr op) l r)).2,
+                          tys := ((newVal g2.st).1, t') :: g2.tys }) :=
+  ⟨binTy (lowerStr op) t, binary_type_is_model_type c env sel e e' (lowerStr op) t hty,
+    binary_as_in_source fc nd g g1 g2 n l r bl br op t accL accR hop hkl hkr hal har hb hl hr ht⟩
+
+/-- applied: `binTy` on `2 * 0.5` is the LEFT type (integer) — with the promotion of seed C06-c it would be real -/
+example : Pyx.Prebuild.typeOf demoT [] none (.bin (.int "2") "*" (.real "0.5")) = some (binTy "*" "integer") :=
+  binary_type_is_model_type _ _ _ _ _ _ _ rfl
 
 /-- applied: `7` in the outer block -/
 example : (callFn (mkEnv { ees := [], classes := [] } { strs := [("value", "7")] }) 20 accept_IntegerNode [.node] []
